@@ -175,10 +175,17 @@ impl<'a> ToTokens for DeriveStructuralWritable<'a, SegregatedStructModel<'a>> {
 
         let (write_with, write_into, num_attrs) =
             if let Some(selector) = inner.inner.newtype_selector() {
+                let field = match &selector {
+                    FieldSelector::Named(id) => quote!(&self.#id),
+                    FieldSelector::Ordinal(i) => {
+                        let idx = syn::Index::from(*i);
+                        quote!(&self.#idx)
+                    }
+                };
                 (
                     quote! { #selector.write_with(writer) },
                     quote! { #selector.write_into(writer) },
-                    quote! { 0 },
+                    quote! { #root::write::StructuralWritable::num_attributes(#field) },
                 )
             } else {
                 (
